@@ -256,7 +256,11 @@ class AbstractShexingStrategy(object):
     def _statements_without_shapes_to_remove(self, original_statements, shape_names_to_remove):
         new_statements = []
         for a_statement in original_statements:
-            if not a_statement.st_type in shape_names_to_remove:
+            if isinstance(a_statement, FixedPropChoiceStatement):  # a disjunction: forget just the alternatives that are gone
+                a_statement.st_types[:] = [a_type for a_type in a_statement.st_types if a_type not in shape_names_to_remove]
+                if len(a_statement.st_types) > 0:
+                    new_statements.append(a_statement)
+            elif not a_statement.st_type in shape_names_to_remove:
                 new_statements.append(a_statement)
         return new_statements
 
